@@ -383,11 +383,19 @@ func (cmd *Command) printDebugVersion() int {
 	return 0
 }
 
-func (cmd *Command) listChecks() int {
+// sortedAnalyzers returns all registered analyzers, ordered by name. The
+// order in which we run analyzers and list them in our output must not
+// depend on map iteration order.
+func (cmd *Command) sortedAnalyzers() []*lint.Analyzer {
 	cs := slices.Collect(maps.Values(cmd.analyzers))
 	sort.Slice(cs, func(i, j int) bool {
 		return cs[i].Analyzer.Name < cs[j].Analyzer.Name
 	})
+	return cs
+}
+
+func (cmd *Command) listChecks() int {
+	cs := cmd.sortedAnalyzers()
 	for _, c := range cs {
 		var title string
 		if c.Doc != nil {
@@ -448,7 +456,7 @@ func (cmd *Command) merge() int {
 	}
 
 	relevantDiagnostics := mergeRuns(runs)
-	cs := slices.Collect(maps.Values(cmd.analyzers))
+	cs := cmd.sortedAnalyzers()
 	return cmd.printDiagnostics(cs, relevantDiagnostics)
 }
 
@@ -513,7 +521,7 @@ func (cmd *Command) lint() int {
 	}
 
 	var runs []run
-	cs := slices.Collect(maps.Values(cmd.analyzers))
+	cs := cmd.sortedAnalyzers()
 	opts := options{
 		analyzers: cs,
 		patterns:  cmd.flags.fs.Args(),
